@@ -221,6 +221,43 @@ def refusedEarly : Res → Bool
   | .unknownLength => true
   | _ => false
 
+/-! ### `Field::bytes(limit)` -/
+
+/-- state of the `poll_fn` loop of `Field::bytes` (actix-multipart/src/field.rs:126-166) -/
+structure FbSt where
+  buf : Bytes
+  exceeded : Bool
+deriving Repr, DecidableEq
+
+inductive FbRes where
+  | ok (b : Bytes)
+  | limitExceeded        -- `Err(LimitExceeded)`
+  | streamErr            -- `Ok(Err(err))`
+deriving Repr, DecidableEq
+
+/-- the three `Some(Ok(chunk))` arms: already over the limit ⇒ drop the chunk; this chunk exceeds
+⇒ set the flag and free the buffer (`mem::take`); otherwise append -/
+def fbStep (limit : Nat) (s : FbSt) (c : Bytes) : FbSt :=
+  if s.exceeded then s
+  else if s.buf.length + c.length > limit then { buf := [], exceeded := true }
+  else { s with buf := s.buf ++ c }
+
+/-- unlike the extractors' loop this one keeps draining the field after the limit is exceeded
+(so that the next field can be read), and a later stream error wins over `LimitExceeded` -/
+def fieldBytesFrom (limit : Nat) : FbSt → List Item → FbRes
+  | s, [] => if s.exceeded then .limitExceeded else .ok s.buf
+  | _, .err :: _ => .streamErr
+  | s, .chunk c :: rest => fieldBytesFrom limit (fbStep limit s c) rest
+
+def fieldBytes (limit : Nat) (items : List Item) : FbRes :=
+  fieldBytesFrom limit { buf := [], exceeded := false } items
+
+/-- state after a prefix of the field's chunks (for the buffer invariant) -/
+def fbRun (limit : Nat) : FbSt → List Item → FbSt
+  | s, [] => s
+  | s, .err :: _ => s
+  | s, .chunk c :: rest => fbRun limit (fbStep limit s c) rest
+
 /-! ### multipart form budgets -/
 
 /-- `form::Limits` (mod.rs:268-272) -/
@@ -307,12 +344,11 @@ def formLoop (limitOf : String → Option Nat) :
       | some v => v
       | none => limitOf f.name
     let l0 := { l with field := entry }
-    match f.kind with
-    | .deny => (.duplicate i, l0)
-    | k =>
-      match readField (k == .memory) l0 f.chunks with
-      | (l1, true) => formLoop limitOf l1 (flSet fl f.name l1.field) (i + 1) rest
-      | (l1, false) => (.overflow i, l1)
+    if f.kind == .deny then (.duplicate i, l0)
+    else
+      let r := readField (f.kind == .memory) l0 f.chunks
+      if r.2 then formLoop limitOf r.1 (flSet fl f.name r.1.field) (i + 1) rest
+      else (.overflow i, r.1)
 
 def multipartForm (limitOf : String → Option Nat) (total memory : Nat) (fields : List Field) :
     FormRes × Limits :=
